@@ -30,6 +30,33 @@ CHECKS.update({
          "DESIGN.md section 5, C07"),
 })
 
+CHECKS.update({
+ "C01": ("proptest-generated programs (recipe -> typed history elaborator) + structured deep chains; oracle = global forward-mode dual numbers (no path counting)",
+         "Bounded generated-input search over expression DAGs built from all public differentiable operations and custom operations (fan-out, diamonds, self-products, re-binding, data-dependent branches, clones/drops, broadcasting with sharing), up to 16/48 steps, and deep chains up to depth 64/256; every tracked leaf's gradient is compared with the dual-number derivative.",
+         "Trusted: harness/refmodel (reference operations + dual numbers). Exact programs compared bitwise, others within a magnitude-scaled 1e-9 tolerance. Forward values are judged by C04-C07, not here.",
+         "DESIGN.md section 5, C01"),
+ "C03": ("exhaustive enumeration of broadcast pairs x use patterns x passes + proptest programs; oracle = reference adjoints summed over broadcast positions, shape assertion on every stored gradient",
+         "Bounded generated-input search: every really-broadcast ordered shape pair (rank<=3 quick / <=4 thorough, sizes 1..3) x {add,mul,sub,div} x 5 use patterns x 1-2 passes x operand order; matmul configurations used twice; generated exact programs with several passes where all stored gradients (leaves and results) are checked.",
+         "Trusted: harness/refmodel. Integer data, bitwise comparison.",
+         "DESIGN.md section 5, C03"),
+ "C12": ("metamorphic testing: proptest-generated base program vs a variant with generated clone / early-drop / re-bind / clone-root rewrites; bitwise equality of values and gradients",
+         "Bounded generated-input search over programs x rewrite choices; both sides run on corgi, no reference values needed.",
+         "Trusted: the rewrite preserves the program's meaning by construction (same operations, same order); comparison is bitwise.",
+         "DESIGN.md section 5, C12"),
+ "C13": ("exhaustive small-scope enumeration + proptest-generated parameter lists and multi-round histories against an exact per-parameter step oracle",
+         "Bounded generated-input search: 3 parameters x 216 shape combinations x all 8x8 gradient patterns over two rounds, plus sampled lists of 0-9 parameters over 1-6 rounds through one optimizer instance; values compared bitwise with old - lr*g computed in the build's float type.",
+         "Trusted: the two-operation reference step; gradients are deposited through gradient_mut.",
+         "DESIGN.md section 5, C13"),
+ "C16": ("exhaustive small-scope enumeration + proptest sampling against a row-major reference; refusal <=> panic",
+         "Bounded generated-input search: all shapes of rank 1..4 / sizes 1..3 (quick) / 1..4 (thorough): five constructors, every index, the equality matrix (copies, clones, views, same values under other shapes, flags/graph/gradient variants), refused constructions.",
+         "Trusted: unravel/ravel reference; bitwise comparison.",
+         "DESIGN.md section 5, C16"),
+ "C17": ("metamorphic testing: five fresh instances of a proptest-generated program (seeds s1, s2, alpha*s1+beta*s2, omitted, ones); relation checked on every stored gradient",
+         "Bounded generated-input search over programs x seed pairs (random, one-hot, sparse, mirrored) x coefficients; linearity bitwise in the exact sublanguage, magnitude-scaled tolerance otherwise; omitted seed == ones bitwise.",
+         "Trusted: nothing but corgi itself for expected values; the reference model supplies magnitudes for the tolerance only.",
+         "DESIGN.md section 5, C17"),
+})
+
 NOT_YET = {}
 
 def main():
